@@ -247,6 +247,16 @@ func (env *Env) ident(name string) Val {
 			if c, ok := fr.names[name]; ok {
 				return e.load(st, &Loc{Kind: LCell, Cell: c, Root: c.T, T: c.T})
 			}
+			if l, ok := fr.heapNames[name]; ok {
+				return e.load(st, l)
+			}
+			if env.inOld || len(fr.names) == 0 {
+				for i, p := range fr.fn.Params {
+					if p.Name() == name && i < len(fr.params) {
+						return fr.params[i]
+					}
+				}
+			}
 			if name == "recv" && len(fr.params) > 0 {
 				return fr.params[0]
 			}
@@ -615,6 +625,29 @@ func (env *Env) call(x *Expr) Val {
 			return boolVal("true")
 		}
 		return boolVal("false")
+	case "hashable":
+		a := env.eval(x.Args[0])
+		return boolVal(mkApp("hashable", mkApp("typeof", a.term())))
+	case "istype":
+		a := env.eval(x.Args[0])
+		if x.Args[1].Op != "type" {
+			efail("istype(x, #T)")
+		}
+		return boolVal(e.typeTest(a, env.resolveType(x.Args[1].Name)))
+	case "oncedone":
+		loc := env.locOf(x.Args[0])
+		if loc == nil {
+			efail("oncedone(): cannot resolve location")
+		}
+		fn := "onceof!" + sanitize(e.fieldClass(loc))
+		e.smt.Declare(fn, []string{SU}, SU)
+		arr := e.heapArr(st, "oncedone", arraySort(SU, SBool))
+		return boolVal(mkSelect(arr, mkApp(fn, loc.Obj)))
+	case "didpanic":
+		if g, ok := st.ghost["$panicked"]; ok {
+			return boolVal(g)
+		}
+		return boolVal("false")
 	case "closed":
 		a := env.eval(x.Args[0])
 		return boolVal(e.chanClosed(st, a.term()))
@@ -673,6 +706,14 @@ func (env *Env) call(x *Expr) Val {
 		v := env.eval(pd.Body)
 		env.names = saved
 		return v
+	}
+	if d, ok := e.spec.GhostMaps[x.Name]; ok {
+		if len(x.Args) != 1 {
+			efail("ghost map %s takes one key", x.Name)
+		}
+		k := env.eval(x.Args[0])
+		arr := e.heapArr(st, "gm!"+d.Name, arraySort(d.Args[0], d.Res))
+		return specVal(mkSelect(arr, k.term()), d.Res)
 	}
 	if d, ok := e.spec.SpecFns[x.Name]; ok {
 		if len(d.Args) != len(x.Args) {
